@@ -44,6 +44,8 @@ class FakeStatus:
         self.success = False
         self._cbs = []
         self._exc = None
+        self.created = H.tick
+        self.finished = None
 
     def add_callback(self, cb):
         if self.done:
@@ -55,6 +57,7 @@ class FakeStatus:
         if self.done:
             return
         self.done = True
+        self.finished = self.H.tick
         self.success = bool(ok)
         if not ok:
             self._exc = DeviceError(f"{self.dev}.{self.op} failed")
@@ -185,6 +188,19 @@ class PausableMotor(Motor):
         self.H.led([self.name, "resume", None])
 
 
+class AsyncPausableMotor(Motor):
+    """pause() is a coroutine that really suspends once (an extra suspension point of _run inside the pause
+    sequence, arrival kind "hook"); used by implementation-only probes, not part of the Lean model"""
+
+    async def pause(self):
+        self.H.led([self.name, "pause", None])
+        self.H.arrive("hook")
+        await asyncio.sleep(0)
+
+    def resume(self):
+        self.H.led([self.name, "resume", None])
+
+
 class Sig(Dev):
     value = 0
 
@@ -250,7 +266,8 @@ class Harness:
         self.script = {int(k): v for k, v in sc.get("script", {}).items()}
         self.max_arrivals = sc.get("max_arrivals", 400)
         for name, spec in sc.get("devices", {}).items():
-            cls = {"motor": PausableMotor if spec.get("pausable") else Motor, "det": Det, "sig": Sig}[spec["kind"]]
+            motor_cls = AsyncPausableMotor if spec.get("pausable") == "async" else (PausableMotor if spec.get("pausable") else Motor)
+            cls = {"motor": motor_cls, "det": Det, "sig": Sig}[spec["kind"]]
             self.devs[name] = cls(self, name, spec)
 
     def led(self, entry):
@@ -443,12 +460,12 @@ class Harness:
         try:
             if a == "pause":
                 run_coro_sync(RE._request_pause_coro(act.get("defer", False)))
-            elif a == "abort":
-                run_coro_sync(RE._abort_coro("requested"))
-            elif a == "stop":
-                run_coro_sync(RE._stop_coro())
-            elif a == "halt":
-                run_coro_sync(RE._halt_coro())
+            elif a in ("abort", "stop", "halt"):
+                was_paused = str(RE.state) == "paused"
+                run_coro_sync({"abort": lambda: RE._abort_coro("requested"), "stop": RE._stop_coro, "halt": RE._halt_coro}[a]())
+                if was_paused:
+                    # what RE.abort()/stop()/halt() do next when they found the engine paused (_resume_task)
+                    RE._run_permit.set()
             elif a == "suspend":
                 pre = (lambda: self.gen(act["pre"])) if act.get("pre") else None
                 post = (lambda: self.gen(act["post"])) if act.get("post") else None
@@ -671,5 +688,5 @@ def run_scenario(sc, timeout=20.0):
         "plan_finished": H.plan_finished,
         "return_causes": H.return_causes,
         "return_values": H.return_values,
-        "statuses": [[st.dev, st.op, st.done, st.success] for st in H.statuses],
+        "statuses": [[st.dev, st.op, st.done, st.success, st.created, st.finished] for st in H.statuses],
     }
